@@ -18,6 +18,7 @@ import sys
 ROOT = Path(__file__).resolve().parent.parent
 ALL = [f"C{i:02d}" for i in range(1, 20)]
 BASES = ["a079985", "0ed460a"]
+KEY_FAMILIES = [{"no-final-save", "final-file-unreadable"}]
 
 
 def git(*args: str, **kw) -> subprocess.CompletedProcess:
@@ -81,7 +82,13 @@ def main() -> int:
                 if not os.path.isdir(base_tree):
                     git("-C", "/repo", "worktree", "add", "-q", "--detach", base_tree, on_base)
                 _brc, bkeys, _bout = run_check(base_tree, check)
-                extra = [k for k in keys if k not in bkeys]
+                # one defect of the base commit can show under several keys (F19: the file is stale OR unreadable, depending
+                # on which worker-thread operation straggles): a key of the same family as one the base shows is the base's
+                family = set(bkeys)
+                for group in KEY_FAMILIES:
+                    if group & family:
+                        family |= group
+                extra = [k for k in keys if k not in family]
                 if not extra:
                     print(f"{check} silent (only what commit {on_base} itself shows: {','.join(sorted(set(keys)))})")
                     continue
